@@ -31,6 +31,7 @@ type Keys struct {
 	reading   bool        // Currently reading keys out of the main loop.
 	keysOnce  chan []byte // Passing keys from the main routine.
 	cursor    chan []byte // Cursor coordinates has been read on stdin.
+	cursorReq int         // Number of cursor position queries waiting for an answer.
 	resize    chan bool   // Resize events on Windows are sent on stdin. USED IN WINDOWS
 
 	cfg   *inputrc.Config // Configuration file used for meta key settings
